@@ -70,7 +70,7 @@ def make_reader(fmt, opts=None):
         return WebVTTReader(ignore_timing_errors=not strict, time_shift_milliseconds=shift)
     if fmt == "mdvd":
         return MicroDVDReader()
-    if fmt in ("dfxp", "dfxp-tree"):
+    if fmt in ("dfxp", "dfxp-tree", "dfxp-text"):
         return DFXPReader()
     if fmt in ("sami", "sami-tree"):
         return SAMIReader()
@@ -87,7 +87,7 @@ def extract(fmt, cs, lang=None, rlang=None):
         return times_of(cs, lang)
     if fmt == "sami":
         return {l: times_of(cs, l) for l in cs.get_languages()}
-    if fmt in ("dfxp-tree", "sami-tree"):
+    if fmt in ("dfxp-tree", "sami-tree", "dfxp-text"):
         return [[l, times_of(cs, l)] for l in cs.get_languages()]
     return times_of(cs)
 
@@ -552,6 +552,36 @@ def stream_dfxp_tree(ctx, acc, n):
     if cases:
         acc.res["samples"].append({"format": "dfxp-tree", "input": plain([cases[0][0], cases[0][1]])})
 
+# ---- DFXP documents AS TEXT (wave 7, requests 120 / 121): the whole text is rendered by the Coq renderer ----------
+def stream_dfxp_text(ctx, acc, n):
+    """abstract documents of coq/spec/SpecXmlDoc.v (structure + every lexical choice); the extracted string-level reader
+    model (coq/model/XmlRead.v: text -> tree -> DFXPReader.read) and the real DFXPReader read the SAME text."""
+    import xmldocgen as xg
+    cases = [xg.gen(ctx.rng, n_top=(ctx.rng.choice([30, 80]) if ctx.rng.random() < 0.02 else None)) for _ in range(n)]
+    outs = oracle_batch([(120, xg.wire_doc(d)) for (d, _) in cases])
+    dd = acc.res["distribution"]
+    for (d, g), o in zip(cases, outs):
+        if o == [-1]:
+            acc.res["disagreements"].append({"format": "dfxp-text", "what": "request 120 refused the abstract document",
+                                             "input": plain(xg.wire_doc(d))})
+            continue
+        doc = o[0]
+        model, expected, expected2, dom = r_result(o[1]), r_result(o[2]), r_result(o[3]), o[4] == 1
+        obs = impl.call(lambda: dict_obs(DFXPReader().read(doc)))
+        rec = {"input": None, "document": doc, "opts": None}
+        for key, val in (("dfxp_text_character_references", g.refs), ("dfxp_text_single_quoted_attributes", g.single),
+                         ("dfxp_text_close_before_begin", g.swapped), ("dfxp_text_paragraphs", g.ps),
+                         ("dfxp_text_blank_paragraphs_written_with_references_only", g.blank_ref_only)):
+            dd[key] = dd.get(key, 0) + val
+        if isinstance(model, Err) and model.code == 99:
+            dd["dfxp_text_outside_the_model_sublanguage"] = dd.get("dfxp_text_outside_the_model_sublanguage", 0) + 1
+        check_reuse(acc, "dfxp-text", {"input": None}, obs, doc, dom=dom)
+        compare_dict(acc, "dfxp-text", rec, expected, obs, model, dom, expected2)
+        if dom:
+            acc.res["nontrivial"].add(("dfxp-text", doc))
+    if cases:
+        acc.res["samples"].append({"format": "dfxp-text", "document": outs[0][0] if outs[0] != [-1] else None})
+
 
 def nearest(tt, chain):
     for x in chain:
@@ -808,12 +838,13 @@ def run(ctx):
     stream_sami(ctx, acc, q(300, 5000))
     stream_dfxp_tree(ctx, acc, q(400, 6000))
     stream_sami_tree(ctx, acc, q(250, 4000))
+    stream_dfxp_text(ctx, acc, q(400, 6000))
     stream_explicit(ctx, acc)
     stream_frame_rate(ctx, acc)
     stream_raw(ctx, acc, q(150, 2500))
     if ctx.thorough:
         sweep(ctx, acc)
-    res["streams"] = 9
+    res["streams"] = 10
     res["distribution"].setdefault("model_differences_outside_the_property", 0)
     res["notes"].append("malformed/raw stream, strict-unsorted WebVTT and blank paragraphs with junk time attributes: model "
                         "vs implementation compared incl. exception class; %d differences (recorded, NOT failing: the "
@@ -916,7 +947,7 @@ def replay(ctx, rec):
         fresh = read_with(fmt, rec["document"], opts, rec.get("lang"), rec.get("rlang"))
         return show(reused) != show(fresh), [show(reused), show(fresh)]
     if rec.get("replay") == "tree":
-        reader = DFXPReader if fmt == "dfxp-tree" else SAMIReader
+        reader = SAMIReader if fmt == "sami-tree" else DFXPReader
         obs = impl.call(lambda: dict_obs(reader().read(rec["document"])))
         return show(obs) != rec["expected"], show(obs)
     opts = rec.get("opts")
